@@ -9,7 +9,9 @@ alone; `vmodel migrate` must predict the migrator's output text exactly.
 Three defects are recorded findings (comments inside the removed annotation are dropped; old-only string
 escapes and the identifier `mixin` are copied verbatim).  A failing case is attributed to them only if
 repairing exactly those (and nothing else) makes the case pass — see `attribute`; anything else,
-including a wrong (line, column) reported by the old parser, is a violation."""
+including a wrong (line, column) reported by the old parser, is a violation — except positions whose
+every deviation carries the verified signature of the third-party lexer defect recorded under C12
+(`positions_explained_by_scnr`); those cases are counted and still judged on their migrated text."""
 import os
 import re
 import gen
@@ -51,6 +53,41 @@ def parse_toks(field):
         t = unhex(h).decode("utf-8")
         out.append((t, k == "1", t.startswith("//") or t.startswith("/*")))
     return out
+
+
+def positions_explained_by_scnr(case):
+    """True iff every (line, column) the old parser reported for this case is either the true one or
+    explained by the recorded third-party lexer defect KEY_SCNR of C12 (scnr2 restore_state drops
+    `last_char`; signature verified per token by c12.Explainer: the token starts right after a line
+    feed that ends the preceding comment run and begins with `/`).  The migrated text of such a case
+    is still judged by parse/tokens/comments; only the old parser's own position code is under test
+    in `positions`, and that code is not at fault here."""
+    from checks import c12
+    field = case.mig_op.split(" ")[2]
+    inner = field[1:-1]
+    src = case.src.encode("utf-8")
+    ex = c12.Explainer(src if src.endswith(b"\n") else src + b"\n")
+    cursor, prev_text, prev_c, prev_end = 0, b"", False, 0
+    for item in inner.split(",") if inner else []:
+        h, l, c, _ = item.split(":")
+        text = unhex(h)
+        if not text:
+            continue
+        p = cursor
+        while not src.startswith(text, p):
+            if p >= len(src) or not src[p:p + 1].isspace():
+                return False
+            p += 1
+        tl, tc = c12.Explainer(ex.src).walk(p)        # true position: no lost line feed
+        hh = text.hex()
+        imp = f"{hh} {l} {c} {p:x} {len(text):x}"
+        ora = f"{hh} {tl:x} {tc:x} {p:x} {len(text):x}"
+        if (int(l, 16), int(c, 16)) != (tl, tc) or ex.lost:
+            if not ex.explains(imp, ora, prev_text, prev_c, prev_end):
+                return False
+        prev_text, prev_c, prev_end = text, text.startswith(b"//") or text.startswith(b"/*"), p + len(text)
+        cursor = p + len(text)
+    return bool(ex.lost)
 
 
 def esc_fix(t):
@@ -257,7 +294,12 @@ def run(ctx):
         ann = c.replies.get("annotation")
         bad = [k for k in ("parse", "tokens", "comments") if k in c.replies and c.replies[k][0] != c.replies[k][1]]
         posr = c.replies.get("positions")
-        if posr and posr[1] != "?" and posr[0] != posr[1]:
+        if posr and posr[1] != "?" and posr[0] != posr[1] and positions_explained_by_scnr(c):
+            # third-party lexer defect recorded under C12 (KEY_SCNR); not the old parser's position
+            # code, and C23's statement is still decided on this case by parse/tokens/comments below
+            dist = ctx.cov.setdefault("distribution", {})
+            dist["migrate.positions_off_by_scnr2_defect"] = dist.get("migrate.positions_off_by_scnr2_defect", 0) + 1
+        elif posr and posr[1] != "?" and posr[0] != posr[1]:
             ctx.violation(f"migrate: the old parser reports a wrong (line, column): {posr[0]}; source {c.src[:200]!r}",
                           c.src_line + "\n", kind="impl!=oracle")
         if ann and ann[0] != ann[1]:
